@@ -121,25 +121,26 @@ type ZooCase struct {
 	Devs    int
 }
 
-// ForEachZoo enumerates every value of a zoo type within a deviation bound.
+// ForEachZoo enumerates every value of a zoo type within a deviation bound, one case per value.
 func ForEachZoo(c *core.Ctx, t *zoo.T, bound int, noAstral bool, fn func(zc *ZooCase)) {
-	if c.Replaying() && c.ReplayChoices != nil {
-		ch := explore.ReplayOne(c.ReplayChoices, func(ch *explore.Chooser) {})
-		_ = ch
-	}
+	forEachZooRaw(c, t, bound, noAstral, func(zc *ZooCase) {
+		if !c.Begin() {
+			return
+		}
+		if zc.Devs > 0 {
+			c.Nontrivial(zc.Desc)
+		}
+		fn(zc)
+	})
+}
+
+func forEachZooRaw(c *core.Ctx, t *zoo.T, bound int, noAstral bool, fn func(zc *ZooCase)) {
 	ex := &explore.Explorer{Bound: bound}
 	ex.Case = func(ch *explore.Chooser) {
 		g := zoo.NewGen(ch)
 		g.NoAstral = noAstral
 		v := g.Make(t.Type)
-		if !c.Begin() {
-			return
-		}
-		zc := &ZooCase{Type: t, Val: v, Desc: t.Name + " " + g.Describe(), Choices: ch.Choices(), Devs: ch.Devs()}
-		if ch.Devs() > 0 {
-			c.Nontrivial(zc.Desc)
-		}
-		fn(zc)
+		fn(&ZooCase{Type: t, Val: v, Desc: t.Name + " " + g.Describe(), Choices: ch.Choices(), Devs: ch.Devs()})
 	}
 	ex.Visit = func(*explore.Chooser) bool { return !c.Expired() }
 	ex.Run(nil)
@@ -169,6 +170,28 @@ func msgClass(s string) string {
 	// drop value-specific fragments after well known prefixes
 	if i := strings.Index(s, "objects:"); i > 0 {
 		s = s[:i]
+	}
+	return s
+}
+
+var (
+	reHex      = regexp.MustCompile(`0x[0-9a-fA-F]+`)
+	reListType = regexp.MustCompile(`list type.*$`)
+	reUndef    = regexp.MustCompile(`(undefined type|no type map for|can't find list type|read list type)[^(]*`)
+	reConv     = regexp.MustCompile(`can't convert to (\w+): .*, type:`)
+)
+
+// msgStrict removes tag values, type names and payload fragments from a decoder message so that one
+// root cause yields one signature.
+func msgStrict(s string) string {
+	s = msgClass(s)
+	s = reHex.ReplaceAllString(s, "0xT")
+	s = reUndef.ReplaceAllString(s, "$1 ")
+	s = reConv.ReplaceAllString(s, "can't convert to $1: type:")
+	// keep the innermost (last) cause and the outermost function
+	parts := strings.Split(s, ":   ")
+	if len(parts) > 2 {
+		s = parts[0] + ": … " + parts[len(parts)-1]
 	}
 	return s
 }
